@@ -30,6 +30,9 @@ def matrix(tier, rnd):
         for point in points:
             # callers blocked in the calls when the cause strikes (the loop is busy), and callers arriving after the end
             add(P.lifecycle_scenario(0, cause, point, "senders", before_api=True, after_api=True))
+    # the context is already cancelled when Run is called (callers before and after)
+    add(P.lifecycle_scenario(0, "cancel", "before-run", "none", before_api=True, after_api=True))
+    add(P.lifecycle_scenario(0, "cancel", "before-run", "none", after_api=True, waits_before_run=3))
     # Wait entered before Run has started
     for cause in ("quit", "kill", "cancel", "interrupt", "readerr"):
         add(P.lifecycle_scenario(0, cause, "idle", "none", after_api=True, waits_before_run=3))
